@@ -59,6 +59,35 @@ void threshold_impl(SrcView const& src_view, DstView const& dst_view, Operator c
     }
 }
 
+// px > threshold in the mathematical sense: a comparison between a signed and an unsigned integral
+// channel of the same rank would otherwise convert the negative operand to a huge unsigned value
+template <typename Channel, typename Threshold>
+inline bool threshold_exceeded(Channel px, Threshold threshold, std::false_type)
+{
+    return px > threshold;
+}
+
+template <typename Channel, typename Threshold>
+inline bool threshold_exceeded(Channel px, Threshold threshold, std::true_type)
+{
+    using unsigned_channel_t = typename std::make_unsigned<Channel>::type;
+    using unsigned_threshold_t = typename std::make_unsigned<Threshold>::type;
+    if (std::is_signed<Channel>::value)
+        return px >= Channel(0) && static_cast<unsigned_channel_t>(px) > static_cast<unsigned_threshold_t>(threshold);
+    return threshold < Threshold(0) || static_cast<unsigned_channel_t>(px) > static_cast<unsigned_threshold_t>(threshold);
+}
+
+template <typename Channel, typename Threshold>
+inline bool threshold_exceeded(Channel px, Threshold threshold)
+{
+    return threshold_exceeded(px, threshold, std::integral_constant
+        <
+            bool,
+            std::is_integral<Channel>::value && std::is_integral<Threshold>::value &&
+            std::is_signed<Channel>::value != std::is_signed<Threshold>::value
+        >{});
+}
+
 } //namespace boost::gil::detail
 
 /// \addtogroup ImageProcessing
@@ -122,14 +151,14 @@ void threshold_binary(
     {
         detail::threshold_impl<source_channel_t, result_channel_t>(src_view, dst_view,
             [threshold_value, max_value](source_channel_t px) -> result_channel_t {
-                return px > threshold_value ? max_value : result_channel_t(0);
+                return detail::threshold_exceeded(px, threshold_value) ? max_value : result_channel_t(0);
             });
     }
     else
     {
         detail::threshold_impl<source_channel_t, result_channel_t>(src_view, dst_view,
             [threshold_value, max_value](source_channel_t px) -> result_channel_t {
-                return px > threshold_value ? result_channel_t(0) : max_value;
+                return detail::threshold_exceeded(px, threshold_value) ? result_channel_t(0) : max_value;
             });
     }
 }
@@ -191,14 +220,14 @@ void threshold_truncate(
         {
             detail::threshold_impl<source_channel_t, result_channel_t>(src_view, dst_view,
                 [threshold_value](source_channel_t px) -> result_channel_t {
-                    return px > threshold_value ? threshold_value : px;
+                    return detail::threshold_exceeded(px, threshold_value) ? threshold_value : px;
                 });
         }
         else
         {
             detail::threshold_impl<source_channel_t, result_channel_t>(src_view, dst_view,
                 [threshold_value](source_channel_t px) -> result_channel_t {
-                    return px > threshold_value ? px : threshold_value;
+                    return detail::threshold_exceeded(px, threshold_value) ? px : threshold_value;
                 });
         }
     }
@@ -208,14 +237,14 @@ void threshold_truncate(
         {
             detail::threshold_impl<source_channel_t, result_channel_t>(src_view, dst_view,
                 [threshold_value](source_channel_t px) -> result_channel_t {
-                    return px > threshold_value ? px : source_channel_t(0);
+                    return detail::threshold_exceeded(px, threshold_value) ? px : source_channel_t(0);
                 });
         }
         else
         {
             detail::threshold_impl<source_channel_t, result_channel_t>(src_view, dst_view,
                 [threshold_value](source_channel_t px) -> result_channel_t {
-                    return px > threshold_value ? source_channel_t(0) : px;
+                    return detail::threshold_exceeded(px, threshold_value) ? source_channel_t(0) : px;
                 });
         }
     }
